@@ -260,7 +260,12 @@ class BK:
         self.rng = rng
 
 
-def tree(h):
+def _pykey(k):
+    """numpy scalars (keys created by the vectorised paths) as the Python values they denote"""
+    return k.item() if hasattr(k, "item") and not isinstance(k, (str, bytes)) else (str(k) if isinstance(k, str) else k)
+
+
+def tree(h, prune=False):
     """flat list of items (ints, F, S, OS, K, BK) describing an aggregator through its
     attributes only (never toJson); same layout as coq/Model/Snap.v"""
     name = h.name
@@ -288,7 +293,7 @@ def tree(h):
     elif name == "SparselyBin":
         head = [201, F(d["binWidth"]), F(d["origin"])]
         fx = [d["nanflow"]]
-        sp = sorted(d["bins"].items(), key=lambda kv: key_sort(kv[0]))
+        sp = sorted(((_pykey(k), v) for k, v in d["bins"].items()), key=lambda kv: key_sort(kv[0]))
         hasq = True
     elif name in ("CentrallyBin", "IrregularlyBin", "Stack"):
         tag = {"CentrallyBin": 202, "IrregularlyBin": 203, "Stack": 204}[name]
@@ -310,7 +315,7 @@ def tree(h):
     elif name == "Categorize":
         head = [207]
         fx = []
-        sp = sorted(d["bins"].items(), key=lambda kv: key_sort(kv[0]))
+        sp = sorted(((_pykey(k), v) for k, v in d["bins"].items()), key=lambda kv: key_sort(kv[0]))
         hasq = True
     elif name in ("Label", "UntypedLabel"):
         ks = sorted(d["pairs"].keys(), key=lambda s: s.encode("utf-8"))
@@ -325,12 +330,14 @@ def tree(h):
         hasq = False
     else:
         raise ValueError("unknown container " + name)
+    if prune:
+        sp = [(kk, c) for kk, c in sp if c.entries != 0.0]
     out = head + ([OS(qname(h))] if hasq else []) + [F(d["entries"]), len(fx)]
     for c in fx:
-        out += tree(c)
+        out += tree(c, prune)
     out.append(len(sp))
     for kk, c in sp:
-        out += [K(kk)] + tree(c)
+        out += [K(kk)] + tree(c, prune)
     return out
 
 
@@ -533,6 +540,35 @@ class Machine:
             for a in p:
                 out += [7777] + snap(a)
             return out
+        if t == "fillnp":
+            import numpy as np
+            a = p[op[1]]
+            rows, w = op[2], op[3]
+            cols = columns(rows)
+            before = [c.copy() for c in cols]
+            form = op[4] if len(op) > 4 else "tuple"
+            if form == "dict":
+                data = dict(zip(FIELDS, cols))
+            elif form == "rec":
+                data = np.rec.fromarrays(cols, names=FIELDS)
+            else:
+                data = tuple(cols)
+            wa = np.array(w, dtype=float) if isinstance(w, list) else w
+            wb = wa.copy() if isinstance(w, list) else None
+            try:
+                a.fill.numpy(data, wa)
+                r = 0
+            except Exception as e:  # noqa: BLE001
+                self.exc.append(exc_class(e))
+                r = 1
+            if not hasattr(self, "nplog"):
+                self.nplog = []
+            after = [data[n] for n in FIELDS[:len(cols)]] if form == "rec" else cols
+            same = all(_same_array(x, y) for x, y in zip(after, before)) and (wb is None or _same_array(wa, wb))
+            self.nplog.append({"inputs_unmodified": same, "raised": self.exc[-1] if r else None})
+            return [r]
+        if t == "snapp":
+            return tokens(tree(p[op[1]], prune=True))
         if t == "eq":
             a, b = p[op[1]], p[op[2]]
 
@@ -589,6 +625,33 @@ def fixed_children(h):
     if n in ("Index", "Branch"):
         return list(d["values"])
     return []
+
+
+def columns(rows):
+    """the batch as one numpy array per datum field (floats/bools -> float64 or bool arrays,
+    categories -> str arrays)"""
+    import numpy as np
+    n = len(rows[0]) if rows else NFIELDS_DEFAULT
+    cols = []
+    for j in range(n):
+        vals = [r[j] for r in rows]
+        if all(isinstance(v, str) for v in vals) and vals:
+            cols.append(np.array(vals, dtype=object))
+        elif all(isinstance(v, bool) for v in vals) and vals:
+            cols.append(np.array(vals, dtype=bool))
+        else:
+            cols.append(np.array([float(v) if not isinstance(v, str) else np.nan for v in vals], dtype=np.float64))
+    return cols
+
+
+NFIELDS_DEFAULT = 5
+
+
+def _same_array(x, y):
+    import numpy as np
+    if x.dtype == object or y.dtype == object:
+        return list(x) == list(y)
+    return x.shape == y.shape and bool(np.all((x == y) | ((x != x) & (y != y))))
 
 
 def _code(f):
